@@ -51,9 +51,9 @@ pub(crate) mod kani_verif {
             }
         };
     }
-    // @h name=c08_sha_wrapper_256 props=C08,C07,C09 tier=thorough kind=proved cfg=default timeout=900 funcs=Sha256_256::finalize;Sha256_256::finalize_reset;Sha256_256::update contract="finalize / finalize_reset return the first OUTPUT_SIZE bytes of the inner SHA-256 digest of what was absorbed; finalize_reset resets; compression function replaced by a deterministic stand-in (sha2 trusted)"
+    // @h name=c08_sha_wrapper_256 props=C08,C07,C09 tier=extended kind=proved cfg=default timeout=900 funcs=Sha256_256::finalize;Sha256_256::finalize_reset;Sha256_256::update contract="finalize / finalize_reset return the first OUTPUT_SIZE bytes of the inner SHA-256 digest of what was absorbed; finalize_reset resets; compression function replaced by a deterministic stand-in (sha2 trusted)"
     sha_wrapper_harness!(c08_sha_wrapper_256, Sha256_256, 32);
-    // @h name=c08_sha_wrapper_192 props=C08,C07,C09 tier=thorough kind=proved cfg=default timeout=900 funcs=Sha256_192::finalize;Sha256_192::finalize_reset contract="same, OUTPUT_SIZE = 24"
+    // @h name=c08_sha_wrapper_192 props=C08,C07,C09 tier=extended kind=proved cfg=default timeout=900 funcs=Sha256_192::finalize;Sha256_192::finalize_reset contract="same, OUTPUT_SIZE = 24"
     sha_wrapper_harness!(c08_sha_wrapper_192, Sha256_192, 24);
     // @h name=c08_sha_wrapper_128 props=C08,C07,C09 tier=thorough kind=proved cfg=default timeout=900 funcs=Sha256_128::finalize;Sha256_128::finalize_reset contract="same, OUTPUT_SIZE = 16"
     sha_wrapper_harness!(c08_sha_wrapper_128, Sha256_128, 16);
